@@ -449,6 +449,9 @@ impl Prop for C08Searches {
             };
             let m = mv_of(&mv);
             st.count("searches", 1);
+            if i >= 1 {
+                st.evaluations += 1; // every search of the continuation is compared on its own
+            }
             st.count("reference_nodes", info.nodes);
             if i >= 1 {
                 st.label("reused-context");
